@@ -48,6 +48,7 @@ ASSUMPTIONS = [
     "an operation that fails under an injected error must leave the target's revision set either as before or - when the error struck after the write group was committed (e.g. while updating the branch tip) - complete; in both cases everything listed must be readable, locks are broken as after a failed process, and the retry must succeed",
     "signatures: a revision fetched by any route must carry the same signature text as in the source",
     "no error injection for knit targets (no write groups, no atomicity claim); the target's check() is required to be clean only when the source's check() is clean (knit sources record per-file parents with revision-graph heads, which check() rejects after a file id was deleted and re-added)",
+    "stacked targets: completeness is judged on the stacked repository together with its fallback; in addition the stacked repository alone must hold the parent inventories and new texts of its own revisions (C08's local statement)",
     "idempotency of the repeated operation is judged on the target repository directory and (pull/push) the target branch directory: byte-identical snapshot except lock/ directories, which must be empty; no put of pack-names, nothing created under packs/ indices/ upload/",
 ]
 
@@ -124,6 +125,9 @@ def generate(rng, tier):
     tips = sorted(g.mh.tips.values())
     x = rng.choice(tips) if rng.random() < 0.7 else rng.choice(ids)
     pre = sorted(rng.sample(ids, rng.choice([0, 1, 1, 2, 3]) if len(ids) >= 3 else 0))
+    if rng.random() < 0.8:
+        # mostly leave something to transfer: no pre-populated head that already contains x
+        pre = [r for r in pre if x not in g.mh.ancestry(r)]
     via = None
     if pre and rng.random() < 0.3:
         cand = [m for m in FMTS if allowed(sfmt, m) and allowed(m, tfmt)]
@@ -231,40 +235,46 @@ def execute(sim, plan, _scratch=None):
     pre = [r for r in plan["pre"] if r in mh.revs]
     order = list(pre)
     random.Random(plan["pre_order"]).shuffle(order)
-    if stacked:
-        url_b = world.new_store("base") + "B/"
-        base_rev = plan["base_rev"] if plan["base_rev"] in mh.revs else mh.order[0]
-        from breezy.transport import get_transport
+    try:
+        if stacked:
+            url_b = world.new_store("base") + "B/"
+            base_rev = plan["base_rev"] if plan["base_rev"] in mh.revs else mh.order[0]
+            from breezy.transport import get_transport
 
-        get_transport(url_b).ensure_base()
-        get_transport(url_t).ensure_base()
-        bb = storesim.make_branch(url_b + "base", tfmt)
-        bb.repository.fetch(storesim.open_repo(url_s), revision_id=base_rev.encode())
-        bb.generate_revision_history(base_rev.encode())
-        bb.controldir.sprout(url_t + "t", revision_id=base_rev.encode(), stacked=True, source_branch=bb)
-        del bb
-    else:
-        storesim.make_shared_repo(url_t, tfmt)
-        storesim.make_branch(url_t + "t", tfmt)
-    route_src = url_s
-    if plan["via"] and pre:
-        url_m = world.new_store("mid") + "M/"
-        storesim.make_shared_repo(url_m, plan["via"])
-        mrepo = storesim.open_repo(url_m)
+            get_transport(url_b).ensure_base()
+            get_transport(url_t).ensure_base()
+            bb = storesim.make_branch(url_b + "base", tfmt)
+            bb.repository.fetch(storesim.open_repo(url_s), revision_id=base_rev.encode())
+            bb.generate_revision_history(base_rev.encode())
+            bb.controldir.sprout(url_t + "t", revision_id=base_rev.encode(), stacked=True, source_branch=bb)
+            del bb
+        else:
+            storesim.make_shared_repo(url_t, tfmt)
+            storesim.make_branch(url_t + "t", tfmt)
+        route_src = url_s
+        if plan["via"] and pre:
+            url_m = world.new_store("mid") + "M/"
+            storesim.make_shared_repo(url_m, plan["via"])
+            mrepo = storesim.open_repo(url_m)
+            for r in order:
+                mrepo.fetch(storesim.open_repo(url_s), revision_id=r.encode())
+            route_src = url_m
+            del mrepo
+        trepo = storesim.open_branch(url_t + "t").repository
         for r in order:
-            mrepo.fetch(storesim.open_repo(url_s), revision_id=r.encode())
-        route_src = url_m
-        del mrepo
-    trepo = storesim.open_branch(url_t + "t").repository
-    for r in order:
-        trepo.fetch(storesim.open_repo(route_src), revision_id=r.encode())
-    if pre and not stacked:
-        tb = storesim.open_branch(url_t + "t")
-        tb.generate_revision_history(pre[0].encode())
-        del tb
-    if plan["pack_tgt"]:
-        with trepo.lock_write():
-            trepo.pack()
+            trepo.fetch(storesim.open_repo(route_src), revision_id=r.encode())
+        if pre and not stacked:
+            tb = storesim.open_branch(url_t + "t")
+            tb.generate_revision_history(pre[0].encode())
+            del tb
+        if plan["pack_tgt"]:
+            with trepo.lock_write():
+                trepo.pack()
+    except Exception as e:  # noqa: BLE001 - pre-population is fetching too: no failure allowed without faults
+        import traceback
+
+        frames = [f.name for f in traceback.extract_tb(e.__traceback__) if "/breezy/" in f.filename]
+        sim.fail("op_failed", ["op_failed", f"{sfmt}->{tfmt}" + ("+stacked" if stacked else ""), "pre-population", f"{type(e).__name__}:{frames[-1] if frames else '?'}"], f"pre-populating the target with {order} (via {plan['via']}) failed: {type(e).__name__}: {e}\n" + "".join(traceback.format_exception(e))[-1800:])
     del trepo
     storesim.clear_caches()
 
@@ -291,6 +301,10 @@ def execute(sim, plan, _scratch=None):
             debug.set_debug_flag("IDS_always")
         try:
             op = plan["op"]
+            if op in ("fetch", "fetch_all"):
+                from breezy.repository import InterRepository
+
+                sim.probe("inter_" + type(InterRepository.get(storesim.open_repo(url_s), target_repo())).__name__)
             if op == "fetch":
                 t = target_repo()
                 t.fetch(storesim.open_repo(url_s), revision_id=x.encode(), find_ghosts=plan["find_ghosts"])
@@ -365,6 +379,9 @@ def execute(sim, plan, _scratch=None):
         prob = storesim.check_clean(t) if not src_prob else None
         if prob:
             sim.fail("check", ["check", conf, tag], f"{tag}: {prob}")
+        if stacked:
+            for what, detail in storesim.stacked_local_problems(url_t + "t", mh):
+                sim.fail("stacked_local", ["stacked_local", conf, tag, what], f"{tag}: {detail}")
 
     # ---- the operation, possibly under an injected error
     def only_target(actor, op, path, mutating):
